@@ -62,6 +62,8 @@ pub struct Case {
     pub file: Vec<u8>,
     pub file_mode: FileMode,
     pub tty: u8,
+    /// stdout / stderr claim to be terminals (the printed pattern must not depend on it)
+    pub tty_out: bool,
     pub seed: u64,
     pub events: Vec<(String, String, i64)>,
     pub dchunk: Vec<(String, i64)>,
@@ -78,7 +80,7 @@ impl Case {
             "path": self.path, "file_hex": hex(&self.file), "file_text": String::from_utf8_lossy(&self.file[..self.file.len().min(200)]),
             "file_mode": match self.file_mode { FileMode::Memfd => "memfd", FileMode::Absent => "absent", FileMode::RealDir => "realdir", FileMode::RealFs => "realfs", FileMode::None => "none" },
             "env": self.env.iter().map(|(k, v)| json!([k, v])).collect::<Vec<_>>(),
-            "tty": self.tty, "seed": self.seed.to_string(),
+            "tty": self.tty, "tty_out": self.tty_out, "seed": self.seed.to_string(),
             "events": self.events.iter().map(|(c, k, a)| json!([c, k, a])).collect::<Vec<_>>(),
             "dchunk": self.dchunk.iter().map(|(c, n)| json!([c, n])).collect::<Vec<_>>(),
             "note": self.note,
@@ -109,6 +111,7 @@ impl Case {
                 _ => FileMode::None,
             },
             tty: v.get("tty").and_then(|x| x.as_u64()).unwrap_or(0) as u8,
+            tty_out: v.get("tty_out").and_then(|x| x.as_bool()).unwrap_or(false),
             seed: v.get("seed")?.as_str()?.parse().ok()?,
             events: v
                 .get("events")?
@@ -142,6 +145,9 @@ impl Case {
         let mut p = String::new();
         p.push_str(&format!("seed {}\n", self.seed));
         p.push_str(&format!("tty {}\n", self.tty));
+        if self.tty_out {
+            p.push_str("tty1 1\ntty2 1\n");
+        }
         p.push_str(&format!("stdin {}\n", hex(&self.stdin)));
         match self.file_mode {
             FileMode::Memfd => {
